@@ -231,6 +231,8 @@ pub struct Sim {
     pub sent_log: Vec<(usize, u32, bool, bool, Msg)>,
     /// every event seen so far (drivers drain it)
     pub event_log: Vec<Value>,
+    /// consecutive iterations without any output whose requested wake-up is not more than 1 ms ahead
+    pub idle_streak: u32,
 }
 
 pub fn now_rel(w: &World) -> u64 {
@@ -257,6 +259,7 @@ impl Sim {
             last_metrics: HashMap::new(),
             sent_log: Vec::new(),
             event_log: Vec::new(),
+            idle_streak: 0,
         };
         let hj: Vec<Value> = s.hosts.iter().map(|h| ifs_json(h)).collect();
         s.log(json!({"e": "reset", "scen": scen, "seed": seed, "hosts": hj}));
@@ -424,6 +427,12 @@ impl Sim {
         self.event_log.extend(events.iter().cloned());
         self.daemons[i].iters += 1;
         let wake = self.daemons[i].wake.map(|w| w as i64 - T0 as i64).unwrap_or(-1);
+        let idle = sent.is_empty() && events.is_empty() && replies.is_empty();
+        if idle && wake >= 0 && (wake as u64) <= self.t() + 1 {
+            self.idle_streak += 1;
+        } else {
+            self.idle_streak = 0;
+        }
         let line = json!({"e": "iter", "d": i, "startup": startup, "sent": sent, "events": events, "replies": replies,
             "wake": wake, "pend": self.daemons[i].pending_cmds, "alive": alive, "panicked": panicked,
             "hung": matches!(parked, Parked::Timeout)});
@@ -550,7 +559,7 @@ impl Sim {
                     return;
                 }
             }
-            if self.hung {
+            if self.hung || self.idle_streak >= 40 {
                 return;
             }
         }
